@@ -446,6 +446,10 @@ def run_case(case):
                 extras[tid] = {"logged": False}
                 a._tasks.add(t)
                 rec("add", op[2], tid)
+            elif kind == "setlimit":      # the restart budget is changed while the actor exists
+                flush()
+                actors[op[2]]._restart_limit = op[3]
+                rec("setlimit", op[2], op[3])
             elif kind == "cancel1":       # Task.cancel() on one task of the actor
                 ts = sorted(tid_of[t] for t in actors[op[2]]._tasks)
                 if ts:
@@ -574,6 +578,8 @@ def c_event(e, actor_of_call=None):
         ev = f"GRunWake {cnat(e[2])} {nl(e[3])}"
     elif k == "runret":
         ev = f"GRunRet {cnat(e[2])}"
+    elif k == "setlimit":
+        ev = f"GSetLimit {cnat(e[2])} {c_limit(e[3], None)}"
     elif k == "cawcall":
         ev = f"GCawCall {cnat(e[2])} {cnat(e[3])} {nl(e[4] or [])}"
     elif k == "withdone":
@@ -595,7 +601,8 @@ def c_trace(log):
 def c_limit(l, default):
     if l == "default":
         l = None          # the documented default of Actor._restart_limit: unlimited
-    return "None" if l is None else f"(Some {cnat(l)})"
+    # `n_restarts < limit` never holds for a negative limit: no restarts, like 0
+    return "None" if l is None else f"(Some {cnat(max(0, l))})"
 
 
 def actor_delay_us(a):
@@ -646,7 +653,7 @@ def case_term(case, obs):
 
 
 # ----------------------------------------------------------------------------- generation
-LIMITS = [0, 1, 3, None, "default"]
+LIMITS = [0, 1, 3, None, "default", 0, 1, 3, None, "default", -1, 5]
 DELAYS = [None, None, {"how": "base"}, {"how": "subclass", "ms": 250}, {"how": "subclass", "ms": 2000}, {"how": "subclass", "ms": 7000},
           {"how": "subclass", "ms": 30000}, {"how": "instance", "ms": 250}, {"how": "instance", "ms": 7000}, {"how": "instance", "ms": 30000}]
 
@@ -711,7 +718,10 @@ def gen_case(rng):
         t = rng.choice(times)
         a = rng.randrange(nact)
         k = rng.choice(["start", "start", "stop", "stop", "cancel", "wait", "add", "add", "run", "yield",
-                        "caw", "caw", "cancel1", "with"])
+                        "caw", "caw", "cancel1", "with", "setlimit"])
+        if k == "setlimit":      # raised, lowered below the restarts already consumed, removed, negative
+            ops.append([t, "setlimit", a, rng.choice([0, 0, 1, 1, 2, 3, None, -1])])
+            continue
         if k in ("caw", "cancel1"):
             ops.append([t, k, a, rng.randrange(3)])
             if rng.random() < 0.5:     # twice at the same instant / a little later: the task is already being cancelled
@@ -875,6 +885,15 @@ def boundary_cases():
         {"actors": [A(None, [S([5000], "ret", ["slowprop"])])], "ops": [[0, "start", 0], [10, "wait", 0, {"cancel_after": 50}], [200, "stop", 0, {"cancel_after": 100}]], "settle_ms": 500},
         {"actors": [A(None, [S([5000], "ret", ["slowbase"])])], "ops": [[0, "with", 0, {"dur": 100, "end": "ok", "exit_cancel_after": 50}]], "settle_ms": 500},
         {"actors": [A(None, [S([5000], "ret", ["slowprop"])])], "ops": [[0, "with", 0, {"dur": 100, "end": "raise", "exit_cancel_after": 0}]], "settle_ms": 500},
+        # the restart limit is lowered below the restarts already consumed / negative limit / raised / removed
+        {"actors": [{**A(5, [S([10], "exc")] * 8), "delay": {"how": "instance", "ms": 250}}],
+         "ops": [[0, "start", 0], [800, "setlimit", 0, 1]], "settle_ms": 5000},
+        {"actors": [{**A(None, [S([10], "exc")] * 8), "delay": {"how": "instance", "ms": 250}}],
+         "ops": [[0, "start", 0], [1000, "setlimit", 0, 0]], "settle_ms": 5000},
+        {"actors": [{**A(-1, [S([10], "exc"), S([10], "ret")]), "delay": {"how": "instance", "ms": 250}}],
+         "ops": [[0, "start", 0]], "settle_ms": 2000},
+        {"actors": [{**A(1, [S([10], "exc")] * 5 + [S([10], "ret")]), "delay": {"how": "instance", "ms": 250}}],
+         "ops": [[0, "start", 0], [100, "setlimit", 0, 3], [600, "setlimit", 0, None]], "settle_ms": 5000},
         # default restart limit (unbounded)
         {"actors": [A("default", [S([], "exc")] * 6 + [S([], "ret")])], "ops": [[0, "start", 0]], "settle_ms": 15000},
     ]
@@ -954,6 +973,14 @@ class ActorStream(Stream):
             out.append(f"run_over={len(rb[3])}")
         for a in case["actors"]:
             out.append(f"limit={a['limit']}")
+        nexc_seen = {}
+        for e in log:
+            if e[1] == "exit" and e[3] == "exc":
+                nexc_seen[e[2]] = nexc_seen.get(e[2], 0) + 1
+            if e[1] == "setlimit":
+                consumed = max([0] + list(nexc_seen.values()))
+                out.append("limit_changed_to_" + ("None" if e[3] is None else "negative" if e[3] < 0 else
+                                                   "below_consumed" if e[3] < consumed else "at_or_above_consumed"))
             d = a.get("delay")
             out.append("delay=" + ("base" if not d or d["how"] == "base" else f"{d['how']}:{d['ms']}ms"))
         kinds = [e[1] for e in log]
